@@ -623,6 +623,7 @@ static void do_heap_delete(State& S) {
 }
 
 static void do_heap_destroy(State& S) {
+  if (S.cfg.abandon_ok) return;   // which blocks a destroy releases is not determined when segments are abandoned by force and re-adopted by other heaps
   int hi = pick_heap(S, false); if (hi <= 0) return;
   mi_heap_t* h = S.heaps[hi].h;
   std::vector<vf::Blk*> mine;
@@ -675,7 +676,7 @@ static void do_query(State& S) {
     // only arena memory is registered as heap region; OS-allocated segments are not => informational only
   }
   S.ep_count[EP_is_in_heap_region]++;
-  if (b->heap >= 0 && ((uintptr_t)b->p & 7) == 0) {
+  if (b->heap >= 0 && ((uintptr_t)b->p & 7) == 0 && !S.cfg.abandon_ok) {
     for (size_t i = 0; i < S.heaps.size(); i++) {
       if (!S.heaps[i].alive) continue;
       bool expect = ((int)i == b->heap);
@@ -708,10 +709,20 @@ static void settle_remote(State& S) {
   for (auto& e : S.heaps) if (e.alive) mi_heap_collect(e.h, false);
   S.pending_remote = false;
 }
+static bool count_blocks_visitor(const mi_heap_t*, const mi_heap_area_t*, void* block, size_t, void* arg) {
+  if (block != nullptr) ((CountCtx*)arg)->used++;
+  return true;
+}
 size_t conservation_count(State& S) {
   settle_remote(S);
   CountCtx c;
   for (auto& e : S.heaps) if (e.alive) mi_heap_visit_blocks(e.h, false, &count_visitor, &c);
+  if (S.cfg.abandon_ok) {
+    // segments this thread was made to abandon: frees into them stay pending (cross-thread) until they are reclaimed, so the per-area `used`
+    // is stale there; count the blocks the walk delivers instead
+    CountCtx a; mi_abandoned_visit_blocks(mi_subproc_main(), -1, true, &count_blocks_visitor, &a);
+    c.used += a.used;
+  }
   return c.used;
 }
 static size_t expected_count(State& S, size_t* foreign) {
@@ -749,6 +760,7 @@ void walk_compare(State& S, const char* refutes) {
   if (S.walk_disabled) return;
   settle_remote(S);
   vf_cur_what = "heap_visit_blocks";
+  std::set<uint64_t> all_seen;
   for (size_t hi = 0; hi < S.heaps.size(); hi++) {
     if (!S.heaps[hi].alive) continue;
     WalkCtx w;
@@ -776,6 +788,7 @@ void walk_compare(State& S, const char* refutes) {
       if ((uintptr_t)inside->p + inside->u > bs + sz)
         vf_trip("walk-range", refutes, "heap #%zu: visited block [%p,+%zu) does not enclose the usable bytes of live block %p (u=%zu)", hi, (void*)bs, sz, (void*)inside->p, inside->u);
       if (inside->heap < 0) { inside->heap = (int)hi; S.foreign_live--; }     // block of an exited thread, now adopted by this heap
+      if (inside->heap != (int)hi && S.cfg.abandon_ok) inside->heap = (int)hi;   // abandoned by force and reclaimed into another heap of this thread
       if (inside->heap != (int)hi)
         vf_trip("walk-wrong-heap", refutes, "heap #%zu: visited block [%p,+%zu) holds live block %p which belongs to heap #%d", hi, (void*)bs, sz, (void*)inside->p, inside->heap);
       if (!seen.insert(inside->id).second)
@@ -784,11 +797,12 @@ void walk_compare(State& S, const char* refutes) {
       matched++;
     }
     size_t want = 0; for (vf::Blk* b : S.sm.live) if (b->heap == (int)hi) want++;
-    if (matched != want) {
+    if (matched != want && !S.cfg.abandon_ok) {
       // find one that is missing
       for (vf::Blk* b : S.sm.live) if (b->heap == (int)hi && !seen.count(b->id))
         vf_trip("walk-misses-live", refutes, "heap #%zu: live block %p (n=%zu u=%zu ep=%s) was not reported by mi_heap_visit_blocks (%zu of %zu reported)", hi, (void*)b->p, b->n, b->u, ep_names[b->ep], matched, want);
     }
+    for (uint64_t id : seen) all_seen.insert(id);
     for (auto& a : w.areas) if (a.second.first != a.second.second)
       vf_trip("walk-area-used", refutes, "heap #%zu: area %p reports used=%zu but %zu blocks were visited", hi, (void*)a.first, a.second.first, a.second.second);
     S.n_walk_blocks += w.blocks.size();
@@ -799,6 +813,27 @@ void walk_compare(State& S, const char* refutes) {
       if (r2 || w2.calls_after_stop != 0 || w2.calls != w2.stop_after)
         vf_trip("walk-not-stopped", refutes, "heap #%zu: visitor returned false at call %ld but the walk returned %d after %ld further calls", hi, w2.stop_after, (int)r2, w2.calls_after_stop);
     }
+  }
+  if (S.cfg.abandon_ok) {
+    // every live block that no heap reported must be reported by the walk over abandoned segments, and nothing else
+    WalkCtx w;
+    vf_cur_what = "abandoned_visit_blocks";
+    mi_abandoned_visit_blocks(mi_subproc_main(), -1, true, &walk_visitor, &w);
+    for (auto& vb : w.blocks) {
+      auto it = S.sm.by_addr.lower_bound(vb.first);
+      if (it == S.sm.by_addr.end() || it->first >= vb.first + vb.second) {
+        bool is_desc = false;   // descriptors of the thread's other heaps are blocks of the backing heap, whose segments can be abandoned as well
+        for (size_t j = 1; j < S.heaps.size(); j++) if (S.heaps[j].alive && (uintptr_t)S.heaps[j].h == vb.first) is_desc = true;
+        if (is_desc) continue;
+      }
+      if (it == S.sm.by_addr.end() || it->first >= vb.first + vb.second)
+        vf_trip("walk-reports-dead", refutes, "abandoned walk: visited block [%p,+%zu) is not a live block of the program", (void*)vb.first, vb.second);
+      if (!all_seen.insert(it->second->id).second)
+        vf_trip("walk-twice", refutes, "live block %p reported by a heap walk and by the abandoned walk (or twice)", (void*)it->second->p);
+    }
+    for (vf::Blk* b : S.sm.live) if (!all_seen.count(b->id))
+      vf_trip("walk-misses-live", refutes, "live block %p (n=%zu u=%zu ep=%s) was reported neither by mi_heap_visit_blocks of any heap nor by mi_abandoned_visit_blocks", (void*)b->p, b->n, b->u, ep_names[b->ep]);
+    S.n_walk_blocks += w.blocks.size();
   }
   S.n_walks++;
   check_errors(S, "heap walk");
@@ -1034,6 +1069,7 @@ int main(int argc, char** argv) {
   S.cfg.trace = (int)vf_getarg_ll(argc, argv, "--trace", 0);
   S.cfg.size_mode = (int)vf_getarg_ll(argc, argv, "--size-mode", 0);
   S.cfg.generic = vf_getarg(argc, argv, "--generic", "");
+  S.cfg.abandon_ok = vf_getarg_ll(argc, argv, "--abandon-ok", 0) != 0;
   S.cfg.workload = (int)vf_getarg_ll(argc, argv, "--workload", 0);
   S.cfg.faults = vf_getarg(argc, argv, "--faults", "");
   S.cfg.reps = (int)vf_getarg_ll(argc, argv, "--reps", 6);
